@@ -555,17 +555,20 @@ class QuicConnection:
                     (tls.Epoch.HANDSHAKE, QuicPacketType.HANDSHAKE),
                 ]
             epoch_packet_types.append((tls.Epoch.ONE_RTT, QuicPacketType.ONE_RTT))
-            for epoch, packet_type in epoch_packet_types:
-                crypto = self._cryptos[epoch]
-                if crypto.send.is_valid():
-                    builder.start_packet(packet_type, crypto)
-                    self._write_connection_close_frame(
-                        builder=builder,
-                        epoch=epoch,
-                        error_code=self._close_event.error_code,
-                        frame_type=self._close_event.frame_type,
-                        reason_phrase=self._close_event.reason_phrase,
-                    )
+            try:
+                for epoch, packet_type in epoch_packet_types:
+                    crypto = self._cryptos[epoch]
+                    if crypto.send.is_valid():
+                        builder.start_packet(packet_type, crypto)
+                        self._write_connection_close_frame(
+                            builder=builder,
+                            epoch=epoch,
+                            error_code=self._close_event.error_code,
+                            frame_type=self._close_event.frame_type,
+                            reason_phrase=self._close_event.reason_phrase,
+                        )
+            except QuicPacketBuilderStop:
+                pass
             self._logger.info(
                 "Connection close sent (code 0x%X, reason %s)",
                 self._close_event.error_code,
@@ -3266,7 +3269,10 @@ class QuicConnection:
             frame_type = QuicFrameType.PADDING
             reason_phrase = ""
 
-        reason_bytes = reason_phrase.encode("utf8")
+        # truncate the reason phrase so that the frame fits in the packet
+        reason_bytes = reason_phrase.encode("utf8")[
+            : max(0, builder.remaining_buffer_space - TRANSPORT_CLOSE_FRAME_CAPACITY)
+        ]
         reason_length = len(reason_bytes)
 
         if frame_type is None:
